@@ -51,6 +51,23 @@ def resultScalar (a : DType) (k : Nat) : DType :=
   else if a = f32 then c64 else c128
 end DType
 
+/-- what numpy stores when a value is converted to a dtype (`ndarray.astype`, `np.array(.., dtype=..)`):
+rounding to single precision for `f32`/`c64`, the real part for real dtypes.  The model only says
+*where* conversions happen (`copy(dtype=..)`, the array of a collection); the function itself is a
+parameter (exact complex rationals in the driver, arbitrary in the theorems). -/
+class DCast (K : Type) where
+  dcast : DType → K → K
+
+/-- conversion to `dt` if a dtype is given (`dtype=None`: the array is copied as it is) -/
+def castCells {K : Type} [DCast K] (dt : Option DType) (cells : List (Option K)) : List (Option K) :=
+  match dt with
+  | none => cells
+  | some d => cells.map (fun x => x.map (DCast.dcast d))
+
+theorem length_castCells {K : Type} [DCast K] (dt : Option DType) (cells : List (Option K)) :
+    (castCells dt cells).length = cells.length := by
+  unfold castCells; split <;> simp
+
 /-! ### store -/
 
 structure Buf (K : Type) where
@@ -253,7 +270,7 @@ inductive Op (K : Type)
   | loadFrame (template : Nat) (frame : Nat)
 
 section
-variable {K : Type} [Add K] [Sub K] [Mul K] [Div K] [Neg K] [NatCast K]
+variable {K : Type} [Add K] [Sub K] [Mul K] [Div K] [Neg K] [NatCast K] [DCast K]
 
 def npow (x : K) : Nat → K
   | 0 => ((1 : Nat) : K)
@@ -292,9 +309,11 @@ def mkNeg (G : List Grid) (st : Store K) (o : Obj) : List (Option K) × DType :=
   ((st.readView o.view).mapIdx (fun p x => if validSel G o p then x.map (fun y => -y) else none),
    (st.dtOf o.view.buf).common)
 
-/-- `DataFieldBase.copy`: a new array with the whole padded data, a new object; id = `s.objs.length` -/
-def copyField (s : State K) (o : Obj) (dt : DType) : State K :=
-  s.allocObj (s.store.readView o.view) dt { o with members := [] }
+/-- `DataFieldBase.copy(dtype=dt)` = `np.array(self._data_full, dtype=dt, copy=True)`: a new array
+with the whole padded data (ghost cells included) converted to `dt`, a new object; id = `s.objs.length` -/
+def copyField (s : State K) (o : Obj) (dt : Option DType) : State K :=
+  s.allocObj (castCells dt (s.store.readView o.view)) (dt.getD (s.store.dtOf o.view.buf))
+    { o with members := [] }
 
 /-- `[make(f) for f in fields]` where `make` builds a new field on a new array from an existing
 one (`mk` gives content and dtype of the new array); returns the ids of the new objects -/
@@ -317,11 +336,13 @@ def relinkAll (s : State K) (b : Nat) : List Nat → List Nat → Nat → State 
   | m :: ms, l :: ls, off => relinkAll (s.relink m ⟨b, off, l⟩) b ms ls (off + l)
   | _, _, _ => s
 
-/-- content of the new collection array: gathered from the members (`np.array(fields_data)`), or the
-copy of an existing collection array (deep copy) -/
-def collCells (s : State K) (os : List Obj) (src : Option (View × DType)) : List (Option K) :=
+/-- content of the new collection array: gathered from the members and converted to the dtype of
+the collection (`number_array(fields_data, dtype=dtype)`, ghost cells included), or the copy of an
+existing collection array (deep copy) -/
+def collCells (s : State K) (os : List Obj) (src : Option (View × DType)) (dtOut : DType) :
+    List (Option K) :=
   match src with
-  | none => os.flatMap (fun o => s.store.readView o.view)
+  | none => castCells (some dtOut) (os.flatMap (fun o => s.store.readView o.view))
   | some (v, _) => s.store.readView v
 
 /-- dtype of the new collection array: `dtype=` if given, else `number_array`'s default (cdouble if
@@ -351,8 +372,8 @@ def linkFrom (s : State K) (ms : List Nat) (grid : Nat) (src : Option (View × D
     else if os.any (fun o => o.grid != grid) then .error .gridMismatch
     else if os.any (fun o => o.cls == .coll || o.cls == .raw) then .error .nested
     else
-    let cells := collCells s os src
     let dtOut := collDType s os src dt
+    let cells := collCells s os src dtOut
     -- the slices of the members tile the array (always true; keeps the model total)
     if cells.length != (os.map (·.view.len)).sum then .error .badArg else
     let c : Obj := { cls := .coll, grid := grid, ncomp := (os.map (·.ncomp)).sum,
@@ -393,7 +414,7 @@ def copyAny (s : State K) (o : Obj) (dt : Option DType) : Except Err (State K) :
   match o.cls with
   | .raw => .error .badArg
   | .coll => copyColl s o dt
-  | _ => .ok (copyField s o (dt.getD (s.store.dtOf o.view.buf)))
+  | _ => .ok (copyField s o dt)
 
 /-- `FieldBase.assert_field_compatible` / `FieldCollection.assert_field_compatible` -/
 def fieldCompat (a b : Obj) : Except Err Unit :=
@@ -573,7 +594,7 @@ def deepcopy (s : State K) (o : Obj) : Except Err (State K) :=
     | .ok os =>
       linkFrom (mapEach mkCopy s os).1 (mapEach mkCopy s os).2 o.grid
         (some (o.view, s.store.dtOf o.view.buf)) none
-  else .ok (copyField s o (s.store.dtOf o.view.buf))
+  else .ok (copyField s o none)
 
 /-- `vector[c]` / `tensor[i, j]`: a new scalar field object looking at block `c` of the padded
 array (vectorial.py:165-179, tensorial.py:149-156) -/
